@@ -259,7 +259,7 @@ def _run_shard(binary, scenarios, workdir, name, timeout_per):
             if kind == "panic":
                 msg = p.stderr[-1500:]
                 f.write(json.dumps({"ev": "panic", "sc": last_reset["sc"], "seq": 0, "op": "process", "step": -1,
-                                    "msg": "process died rc=%d: %s" % (p.returncode, msg)}) + "\n")
+                                    "msg": "%sprocess died rc=%d: %s" % ("DATA RACE reported by the race detector; " if p.returncode == 66 else "", p.returncode, msg)}) + "\n")
             f.write(json.dumps({"ev": "end", "sc": last_reset["sc"], "seq": 0, "idx": last_reset["idx"], "completed": False}) + "\n")
         skip = last_reset["idx"]
     _renumber(tfile)
